@@ -12,7 +12,7 @@ SPEC = {
     "assumptions": ["the paired plain select is the ground truth for the pair (if it disagrees with the model the pair is attributed to C02 and skipped, counted)",
                     "tie choices (equal timestamps / equal extremes) and count over an empty bucket are admissible sets as in C08"],
     "campaigns": [
-        {"name": "dense_segments", "run": "^TestDenseSegments$", "quick": B(4, 6, 900, shrinktime="60s"), "thorough": B(60, 8, 3400, shrinktime="180s")},
+        {"name": "dense_segments", "run": "^TestDenseSegments$", "quick": B(7, 6, 900, shrinktime="60s"), "thorough": B(60, 8, 3400, shrinktime="180s")},
         {"name": "aggregate_pairs", "run": "^TestAggregatePairs$", "quick": B(4, 10, 900, shrinktime="60s"), "thorough": B(60, 14, 3400, shrinktime="180s")},
     ],
 }
